@@ -141,6 +141,12 @@ def run_one(cfg, root):
     # the lifecycle also exports the paths it passes as arguments (buildpack API >= 0.8); libcnb reads its arguments only
     env["CNB_PLATFORM_DIR"] = os.path.join(root, "platform")
     env["CNB_APP_DIR"] = os.path.join(root, "app")
+    # ... or not at all, or (a variable the platform or an outer process left in the environment) naming some
+    # other directory: the app directory is the working directory the phase is started in
+    if cfg.get("app_env") == "absent":
+        del env["CNB_APP_DIR"]
+    elif cfg.get("app_env") == "other":
+        env["CNB_APP_DIR"] = os.path.join(root, "platform")
     if is_build:
         env["CNB_LAYERS_DIR"] = os.path.join(root, "layers")
         env["CNB_BP_PLAN_PATH"] = plan_path
